@@ -33,6 +33,10 @@ def cases_for(rng, n, per):
     for _ in range(n):
         g = gg.grammar()
         cfg = D.default_cfg(autoinit=rng.random() < 0.6)
+        if rng.random() < 0.3:
+            # the same values are prescribed when the objects are instances of user classes, also of classes that
+            # have class-level attributes named like the grammar attributes
+            cfg["userclasses"] = rng.choice([True, "classattrs", "classattrs"])
         sg = G.SentenceGen(rng, g)
         sg.tok_base = lambda name, _f=falsy, _r=rng: _r.choice(_f[name])
         for k in range(per):
